@@ -159,11 +159,14 @@ pub struct World {
     pub log: Arc<Log>,
     /// one entry per committee member; Byzantine members have no replica (None)
     pub nodes: Vec<Option<Node>>,
+    /// twins: entries of `nodes` beyond the committee size are real replicas running under a *Byzantine* key (two per key);
+    /// `twin_of[k]` is the committee index whose key entry `n + k` runs under
+    pub twin_of: Vec<usize>,
     pub settle_yields: usize,
 }
 
 impl World {
-    pub async fn new(committee: Committee) -> Self {
+    pub async fn new(committee: Committee, twins: bool) -> Self {
         let clock = ctx::ManualClock::new();
         let ctx = ctx::test_root(&clock);
         let log = Arc::new(Log::default());
@@ -177,11 +180,30 @@ impl World {
             let shared = NodeShared::new(i, committee.genesis.clone(), log.clone());
             nodes.push(Some(Node { shared, key: committee.sk[i].clone(), inbound: None, manager: None, handle: None, kill: None, alive: false, died: None }));
         }
-        World { clock, ctx, committee, log, nodes, settle_yields: 40 }
+        let mut twin_of = vec![];
+        if twins {
+            for i in 0..committee.n() {
+                if !committee.byz[i] {
+                    continue;
+                }
+                for _ in 0..2 {
+                    let idx = committee.n() + twin_of.len();
+                    let shared = NodeShared::new(idx, committee.genesis.clone(), log.clone());
+                    nodes.push(Some(Node { shared, key: committee.sk[i].clone(), inbound: None, manager: None, handle: None, kill: None, alive: false, died: None }));
+                    twin_of.push(i);
+                }
+            }
+        }
+        World { clock, ctx, committee, log, nodes, twin_of, settle_yields: 40 }
     }
 
     pub fn correct(&self) -> Vec<usize> {
-        (0..self.nodes.len()).filter(|i| self.nodes[*i].is_some()).collect()
+        (0..self.committee.n()).filter(|i| self.nodes[*i].is_some()).collect()
+    }
+
+    /// real replicas that run under Byzantine keys (never judged; their traffic is Byzantine traffic)
+    pub fn twins(&self) -> Vec<usize> {
+        (self.committee.n()..self.nodes.len()).collect()
     }
 
     pub fn node(&self, i: usize) -> &Node {
